@@ -354,7 +354,37 @@ def check_item(item: tuple) -> dict:
             r_ov.network.get_verified_by_address(src)      # warm the reverse-address cache as normal traffic does
             deliver(label, data)
 
+        from ipv8.messaging.interfaces.udp.endpoint import UDPv4Address  # noqa: PLC0415
+        elsewhere = UDPv4Address("77.77.77.77", 7777)
+
+        def deliver_from_elsewhere(label: str, data: bytes) -> None:
+            """An unauthentic datagram claiming the verified sender's key, sent from another address: the verified peer's
+            address table must not change (nobody may redirect a verified peer by sending garbage in its name)."""
+            nonlocal src
+            r_ov.network.add_verified_peer(genuine)
+            known = r_ov.network.get_verified_by_public_key_bin(genuine.public_key.key_to_bin())
+            before_addrs = dict(known.addresses) if known is not None else None
+            real_src, src = src, elsewhere
+            try:
+                deliver(label, data)
+            finally:
+                src = real_src
+            _, dok = ref_parse(data)
+            known2 = r_ov.network.get_verified_by_public_key_bin(genuine.public_key.key_to_bin())
+            if not dok and known is not None and known2 is known and dict(known.addresses) != before_addrs:
+                res["violations"].append((f"unauthentic-datagram-rebinds-address:{name}:{label.split('|')[0]}",
+                                          f"{name}: a datagram that is not authentic ({label}) from {elsewhere} changed the "
+                                          f"addresses of the verified peer it names: {before_addrs} -> {dict(known.addresses)}",
+                                          {"item": item, "label": label, "data": data.hex(), "seed": _SEED}))
+            if known is not None:
+                known.addresses.clear()
+                known.addresses.update(before_addrs)
+
         deliver_known("valid|sender-verified", d)
+        for label, m in mutations(d, ctxt, False):
+            if label.startswith(("zero-signature", "signed-by-other-key", "signature-of-other", "bitflip:signature",
+                                 "bitflip:payload", "empty-signature")):
+                deliver_from_elsewhere(label + "|from-elsewhere", m)
         for label, m in mutations(d, ctxt, False):
             if label.startswith(("key-substituted", "signed-by-other-key", "signature-of-other", "payload-splice")):
                 deliver_known(label + "|sender-verified", m)
